@@ -102,9 +102,6 @@ class Symbol(Node):
         self.use_hash = True
 
     def generate_lingo(self, indentation: int) -> str:
-        if self.name in KNOWN_SYMBOLS:
-            self.use_hash = False
-        
         if self.use_hash:
             return '#' + self.name
         return self.name
